@@ -49,7 +49,7 @@ def build_array(uni, desc, cls=None):
     cls = cls or fd.FlodymArray
     ds = fl_dimset(uni, desc["dims"])
     shape = tuple(len(uni[l]["items"]) for l in desc["dims"])
-    vals = np.array([float(v) for v in desc["values"]], dtype=float).reshape(shape)
+    vals = np.array([float(Fraction(v)) for v in desc["values"]], dtype=float).reshape(shape)
     lay = desc.get("layout", "C")
     if lay == "F" and vals.ndim >= 2:
         vals = np.asfortranarray(vals)
